@@ -6,7 +6,9 @@
 //! Every random choice comes from the proptest strategy; a run is a function of the tree under
 //! test and `VERIF_SEED`.
 
+pub mod crypto;
 pub mod exec;
+pub mod httpsrv;
 pub mod model;
 pub mod mserver;
 pub mod obs;
@@ -138,6 +140,7 @@ pub struct Engine {
     known: Vec<KnownFinding>,
     state: Mutex<EvState>,
     stop: AtomicBool,
+    shrink_iters: AtomicU64,
 }
 
 #[derive(Default)]
@@ -212,7 +215,13 @@ impl Engine {
                 ..Default::default()
             }),
             stop: AtomicBool::new(false),
+            shrink_iters: AtomicU64::new(4000),
         }
+    }
+
+    /// Bound the number of shrink steps of the following campaigns (expensive cases).
+    pub fn set_shrink_iters(&self, n: u64) {
+        self.shrink_iters.store(n, Ordering::Relaxed);
     }
 
     pub fn is_open_known(&self, sig: &str) -> bool {
@@ -452,7 +461,7 @@ impl Engine {
                         cases: per as u32,
                         failure_persistence: None,
                         rng_seed: RngSeed::Fixed(s),
-                        max_shrink_iters: 4000,
+                        max_shrink_iters: self.shrink_iters.load(Ordering::Relaxed) as u32,
                         max_global_rejects: 100_000,
                         ..Config::default()
                     };
